@@ -42,7 +42,7 @@ func (r *runner) par(ops []tr.Line) {
 	r.w.Op(tr.L("par", tr.I(len(ops))))
 	x := r.x
 	x.settleAll()
-	x.window()
+	pre := x.window(false)
 	old := settleSkip
 	settleSkip = true
 	outs := make([]tr.Line, len(ops))
@@ -59,7 +59,7 @@ func (r *runner) par(ops []tr.Line) {
 		return true
 	})
 	x.settleAll()
-	evs := x.window()
+	evs := append(pre, x.window(false)...)
 	used := make([]bool, len(evs))
 	for i, op := range outs {
 		r.w.Op(op)
@@ -108,6 +108,9 @@ func runCase(w *tr.Writer, id string, cfg caseCfg, body func(r *runner)) {
 		buf := make([]byte, 1<<20)
 		n := runtime.Stack(buf, true)
 		fmt.Fprintf(os.Stderr, "drv-engine: case %s stuck for 40 s, dropped; goroutines:\n%s\n", id, buf[:n])
+		if d := os.Getenv("VERIF_STUCK_DIR"); d != "" {
+			os.WriteFile(fmt.Sprintf("%s/stuck-%d-%s.txt", d, os.Getpid(), id), buf[:n], 0o644)
+		}
 		w.Close(statsPath)
 		os.Exit(0)
 	})
@@ -400,8 +403,9 @@ func genShutdown(rnd *tr.Rand, w *tr.Writer, id string) {
 		case "onshutdown":
 			// the engine is cancelled and OnShutdown is running: loops still serve
 			r.do("pin", "R:onshutdown")
-			r.source(-1)
-			if rnd.Chance(70) {
+			src := r.source(-1)
+			// every loop still serves and accepts if the request came from outside the loops
+			if rnd.Chance(70) && strings.HasPrefix(src, "stop") || src == "pkgstop" {
 				r.do("connect", "0", "none", "0", "none")
 			}
 			r.trafficSome(rnd.Intn(2))
